@@ -148,6 +148,14 @@ def concrete_list(path: Path, t: Term, depth: int = 0) -> Optional[List[Term]]:
             if xs is None:
                 return None
             out.extend(xs)
+        # an element may refer to an earlier element of the same (append-only) list by a constant index: ``xs.append(xs[0] - d)``
+        from .sym import number
+        for i, x in enumerate(out):
+            for sb in subterms(x, lambda y: y[0] == "sub" and _is_var(y[1], t) and number(y[2]) is not None):
+                k = int(number(sb[2]))
+                if 0 <= k < i:
+                    x = subst(x, {sb: out[k]})
+            out[i] = x
         return out
     if t[0] == "concat":
         out = []
